@@ -9,6 +9,10 @@ from engine import slicer, pipeline, native
 VERIF = os.path.dirname(os.path.dirname(os.path.abspath(__file__)))
 REPO = os.environ.get('VERIF_REPO', '/repo')
 NCPU = int(os.environ.get('VERIF_JOBS', '16'))
+# developer overrides used by tools/eval_seed.py only (never by the registered commands): write build output, evidence and replay files
+# somewhere else, and restrict the run to some units
+OUT = os.environ.get('VERIF_OUT', VERIF)
+ONLY_UNITS = [u for u in os.environ.get('VERIF_ONLY_UNITS', '').split(',') if u]
 
 def all_units():
     names = []
@@ -32,7 +36,7 @@ def main(argv):
     if '--tier' in argv: tier = argv[argv.index('--tier') + 1]
     seed = int(os.environ.get('VERIF_SEED', '1'))
     t0 = time.time()
-    build = os.path.join(VERIF, 'build', prop + '.' + tier)
+    build = os.path.join(OUT, 'build', prop + '.' + tier)
     shutil.rmtree(build, ignore_errors=True)
     gendir = os.path.join(build, 'gen'); work = os.path.join(build, 'work')
     os.makedirs(gendir); os.makedirs(work)
@@ -51,6 +55,7 @@ def main(argv):
         mod = importlib.import_module('units.' + name)
         jobs = [j for j in mod.JOBS if prop in j.get('props', []) and not (tier == 'quick' and j.get('tier') == 'thorough')]
         if not jobs: continue
+        if ONLY_UNITS and name not in ONLY_UNITS: continue
         try:
             for dep in getattr(mod, 'DEPS', []):
                 if dep not in emitted:
@@ -88,7 +93,7 @@ def main(argv):
         from engine import gates
         g = gates.check(REPO); static_facts['version_gates'] = g
         for ch in g['changed']:
-            rp = os.path.join(VERIF, 'replays', 'C05.version_gate.%s.json' % re.sub(r'[^A-Za-z0-9_.-]', '_', ch['function'])[-80:])
+            rp = os.path.join(OUT, 'replays', 'C05.version_gate.%s.json' % re.sub(r'[^A-Za-z0-9_.-]', '_', ch['function'])[-80:])
             os.makedirs(os.path.dirname(rp), exist_ok=True)
             json.dump({'property': 'C05', 'obligation': 'static.version_gate_table', 'description': 'a bitstream-version gate of the pinned decoder was removed or altered', 'detail': ch,
                        'native_replay': {'status': 'no-adapter', 'detail': 'static fact: no input; see DESIGN.md A.11'}}, open(rp, 'w'), indent=1)
@@ -136,13 +141,13 @@ def main(argv):
     for hit, o in kf_hit:
         print('KNOWN-FINDING: property=%s %s (%s)' % (prop, hit['text'], o['desc']))
     # 5. violations -> replay files
-    os.makedirs(os.path.join(VERIF, 'replays'), exist_ok=True)
+    os.makedirs(os.path.join(OUT, 'replays'), exist_ok=True)
     seen = set(); vcount = 0
     for j, r, o in violations:
         key = (j['id'], o['desc'] if (o['desc'] or '').count('.') else o['name'])
         if key in seen: continue
         seen.add(key); vcount += 1
-        rp = os.path.join(VERIF, 'replays', '%s.%s.json' % (prop, re.sub(r'[^A-Za-z0-9_.-]', '_', j['id'] + '.' + (o['name'] or 'x'))))
+        rp = os.path.join(OUT, 'replays', '%s.%s.json' % (prop, re.sub(r'[^A-Za-z0-9_.-]', '_', j['id'] + '.' + (o['name'] or 'x'))))
         rec = {'property': prop, 'job': j['id'], 'obligation': o['name'], 'description': o['desc'], 'location': o['loc'], 'entry': j['entry'],
                'inputs': o.get('trace', {}), 'verifier_log': r['log'], 'repo': REPO}
         nat = native.replay(j, o, gendir, build, REPO) if j.get('native') else native.replay_api(j, build, REPO) if j.get('native_api') else {'status': 'no-adapter', 'detail': 'obligation is checked under contract abstraction / symbolic memory; no native adapter for this harness'}
@@ -184,8 +189,8 @@ def main(argv):
               'solver_seconds_total': round(sum(p.get('seconds') or 0 for p in per_job), 1),
           },
           'assumptions': assumptions, 'wall_s': round(wall, 1), 'violations': vcount}
-    os.makedirs(os.path.join(VERIF, 'evidence'), exist_ok=True)
-    json.dump(ev, open(os.path.join(VERIF, 'evidence', prop + '.json'), 'w'), indent=1)
+    os.makedirs(os.path.join(OUT, 'evidence'), exist_ok=True)
+    json.dump(ev, open(os.path.join(OUT, 'evidence', prop + '.json'), 'w'), indent=1)
     print('%s tier=%s: %d jobs, %d obligations, %d discharged, %d vacuity probes fired, %d violations, %d inconclusive, %.0fs' % (
         prop, tier, len([p for p in per_job]), n_obl, n_ok, vac_fired, vcount, len(inconclusive), wall))
     if vcount: return 1
